@@ -87,6 +87,10 @@ func check(c *reqcase.Case, rq *reqcase.ReqSpec, ob reqcase.Obs) (string, bool) 
 	if d.Probe {
 		return "", false
 	}
+	if ob.Delivered > 1 && d.WellFormed {
+		// one request, several subscriptions of the service: the handler runs once per delivery
+		return fmt.Sprintf("request %s was delivered on %d subscriptions of the service (the handler is invoked for each)", rq.Subject, ob.Delivered), true
+	}
 	if ob.Delivered != 1 || !d.WellFormed {
 		return "", false
 	}
